@@ -16,7 +16,7 @@ from props import names_common as nc
 RULE = ("(tree with long names, -exec or -execdir, fixed arguments, test before the action, optional -quit, failing invocation numbers, stack limit) cases "
         "with the real binary; non-trivial = distinct case with at least two invocations")
 ASSUMPTIONS = [
-    "argmax 0.3.1's accounting is modelled from its source (ExecLimits.argmax_budget, 8+len+1 per argument) and compared through the batch boundaries observed",
+    "argmax 0.3.1's accounting is modelled from its source (ExecLimits.argmax_budget, 8+len+1 per argument; find_budget = that less MultiExecMatcher's own reserve) and compared through the batch boundaries observed",
     "sysconf(_SC_ARG_MAX) under the stack limit of the run is read with getconf in the same setting",
     "every path fits into an otherwise empty command line (the theorem's guard); longer single paths are not generated",
 ]
@@ -101,7 +101,7 @@ def run(ctx):
             def budget_for(failing):
                 env_ = dict(xc.ENV, FUV_RECORD=rec.decode(), FUV_EXIT_MAP=",".join("%d:3" % i for i in failing))
                 envs_ = ",".join("%d:%d" % (len(k_.encode()), len(v_.encode())) for k_, v_ in env_.items())
-                return env_, int(fw.run_lines(fw.FUVM, ["limits argmax_budget %d %s %d %s" % (amax, envs_, len(fw.FUV), ",".join(str(len(f)) for f in fixed))], shards=1)[0])
+                return env_, int(fw.run_lines(fw.FUVM, ["limits find_budget %d %s %d %s" % (amax, envs_, len(fw.FUV), ",".join(str(len(f)) for f in fixed))], shards=1)[0])
             env, budget = budget_for(list(range(nfail)))
             m0 = fw.run_lines(fw.FUVM, ["execm %d %d ~ %s" % (int(execdir), budget, ",".join(entries) if entries else "~")], shards=1)[0].split(" ")
             nruns = min(len(m0) - 2, 10)
@@ -141,6 +141,7 @@ def run(ctx):
                 bad.append((args, rl, got, exp, p.returncode, exp_rc))
         root_directory(ctx, forest)
         no_empty_batch(ctx, forest)
+        script_on_long_path(ctx, forest)
         ctx.sample({"example_command": "find ROOT -sorted -type f -execdir fuv record fixed {} + -name Q -quit", "stack_limit": 262144})
         for args, rl, got, exp, rc, exp_rc in bad[:2]:
             first = next(((i, a, b) for i, (a, b) in enumerate(zip(got + [None], exp + [None])) if a != b), None)
@@ -197,6 +198,9 @@ def root_directory(ctx, forest):
                        ([b"rl/.", b"-maxdepth", b"0"], [(rt, [b"./."])]), ([b"rt/.", b"-sorted"], [(rt, [b"./."]), (rt, [b"./in"])]),
                        ([b"rt/in/..", b"-maxdepth", b"0"], [(os.path.join(rt, b"in"), [b"./.."])]),
                        ([b"/", b"-maxdepth", b"0"], [(b"/", [b"/"])]),
+                       # -depth: "/" comes after its entries, and is still not one of them (C08_own_directory_alone)
+                       ([b"/", b"-depth", b"-sorted", b"-maxdepth", b"1", b"(", b"-name", b"tmp", b"-o", b"-name", b"/", b"-o", b"-name", b"etc", b")"],
+                        [(b"/", [b"./etc", b"./tmp"]), (b"/", [b"/"])]),
                        ([b"rt", b"/", b"-maxdepth", b"0"], [(forest.dir, [b"./rt"]), (b"/", [b"/"])]),
                        ([b"/", b"rt", b"-maxdepth", b"0"], [(b"/", [b"/"]), (forest.dir, [b"./rt"])])):
         rec = os.path.join(forest.dir, b"recroot")
@@ -215,6 +219,47 @@ def root_directory(ctx, forest):
             ctx.violation("find %s -execdir CMD {} +: invocations %r (exit %d); expected %r" % (b" ".join(args).decode(), got, p.returncode, want),
                           {"property": "C08", "kind": "root-directory", "find_args": [a.decode() for a in args], "exit": p.returncode,
                            "invocations": [[c.decode(), [x.decode() for x in a]] for c, a in got]})
+
+
+def script_on_long_path(ctx, forest):
+    """every invocation is accepted by the operating system also when CMD is a '#!' script found through a PATH directory whose name is
+    thousands of bytes long: the kernel charges that file name (twice for a script) to the same limit as the arguments"""
+    import resource
+    d = os.path.join(forest.dir, b"slp")
+    os.makedirs(os.path.join(d, b"tree"))
+    names = [(b"f%04d" % i) + b"y" * 190 for i in range(900)]
+    for n in names:
+        open(os.path.join(d, b"tree", n), "wb").close()
+    long_dir = d
+    while len(long_dir) + 241 < 3900:
+        long_dir = os.path.join(long_dir, b"q" * 240)
+    os.makedirs(long_dir)
+    rec = os.path.join(d, b"rec")
+    with open(os.path.join(long_dir, b"cntlong"), "wb") as f:
+        f.write(b"#!/bin/sh\nexec " + fw.FUV.encode() + b' record "$@"\n')
+    os.chmod(os.path.join(long_dir, b"cntlong"), 0o755)
+    env = dict(xc.ENV, FUV_RECORD=rec.decode())
+    env["PATH"] = long_dir.decode() + ":" + env.get("PATH", "/usr/bin:/bin")
+
+    def pre():
+        resource.setrlimit(resource.RLIMIT_STACK, (256 * 1024, 256 * 1024))
+    for flag in ("-exec", "-execdir"):
+        if os.path.exists(rec):
+            os.remove(rec)
+        args = ["tree", "-sorted", "-type", "f", flag, "cntlong", "{}", "+"]
+        p = subprocess.run([fw.FIND] + args, stdout=subprocess.DEVNULL, stderr=subprocess.PIPE, cwd=d, env=env, preexec_fn=pre, timeout=120)
+        got, runs = [], 0
+        if os.path.exists(rec):
+            for line in open(rec):
+                runs += 1
+                got += [fw.unhex(x) for x in line.split()[1:]]
+        want = [(b"./" if flag == "-execdir" else b"tree/") + n for n in sorted(names)]
+        ctx.count(("script-on-long-path", flag), True, ["script-on-long-path", "invocations=%d" % runs])
+        if got != want or p.returncode != 0:
+            ctx.violation("find tree -type f %s cntlong {} + with cntlong a '#!' script in a PATH directory of %d bytes (stack limit 256 KiB): %d of %d paths delivered in %d invocations, exit %d: %s"
+                          % (flag, len(long_dir), len(got), len(want), runs, p.returncode, p.stderr.decode("utf-8", "replace")[:120]),
+                          {"property": "C08", "kind": "script-on-long-path", "action": flag, "path_directory_bytes": len(long_dir), "delivered": len(got),
+                           "expected": len(want), "invocations": runs, "exit": p.returncode, "stderr": p.stderr.decode("utf-8", "replace")[:300]})
 
 
 def replay(ctx, rep):
